@@ -185,16 +185,23 @@ impl<'a> JsonTokenizer<'a> {
 
         while let Ok(c) = self.read() {
             if escape {
-                // Handle escape sequences
+                // Handle escape sequences (RFC 8259, section 7)
                 match c {
                     '\\' => result.push('\\'),
                     '"' => result.push('"'),
+                    '/' => result.push('/'),
                     'n' => result.push('\n'),
-                    // 't' => result.push('\t'),
-                    // 'r' => result.push('\r'),
-                    // Add other escape sequences as needed
-                    // _ => result.push(c), // Push the character as is if unknown escape
-                    _ => {}
+                    't' => result.push('\t'),
+                    'r' => result.push('\r'),
+                    'b' => result.push('\u{8}'),
+                    'f' => result.push('\u{c}'),
+                    'u' => result.push(self.read_unicode_escape()?),
+                    _ => {
+                        return Err(io::Error::new(
+                            io::ErrorKind::InvalidData,
+                            format!("Invalid escape sequence '\\{}'", c),
+                        ));
+                    }
                 }
                 escape = false;
             } else if c == '\\' {
@@ -215,6 +222,44 @@ impl<'a> JsonTokenizer<'a> {
                 "Unterminated string",
             ))
         }
+    }
+
+    /// Reads the `XXXX` of a `\uXXXX` escape; a high surrogate must be followed
+    /// by an escaped low surrogate.
+    fn read_unicode_escape(&mut self) -> io::Result<char> {
+        let invalid = || io::Error::new(io::ErrorKind::InvalidData, "Invalid unicode escape");
+
+        let first = self.read_hex4()?;
+        let mut units = vec![first];
+
+        if (0xD800..0xDC00).contains(&first) {
+            if self.read()? != '\\' || self.read()? != 'u' {
+                return Err(invalid());
+            }
+            units.push(self.read_hex4()?);
+        }
+
+        match char::decode_utf16(units).next() {
+            Some(Ok(c)) => Ok(c),
+            _ => Err(invalid()),
+        }
+    }
+
+    fn read_hex4(&mut self) -> io::Result<u16> {
+        let mut hex = String::with_capacity(4);
+        for _ in 0..4 {
+            hex.push(self.read()?);
+        }
+
+        if !hex.chars().all(|c| c.is_ascii_hexdigit()) {
+            return Err(io::Error::new(
+                io::ErrorKind::InvalidData,
+                "Invalid unicode escape",
+            ));
+        }
+
+        u16::from_str_radix(&hex, 16)
+            .map_err(|_| io::Error::new(io::ErrorKind::InvalidData, "Invalid unicode escape"))
     }
 
     fn read_until_separator(&mut self) -> io::Result<String> {
